@@ -1214,7 +1214,7 @@ MANIFEST = {
             'sibling-indexed, remembered and read back); features and features_mask of each '
             'calculator are views of the same inputs in the same order; summary, cost and export '
             'of each layer read one calculator wired from input_features_set_by. Coverage of '
-            'unsupported ops / negative concat dims is not decided.',
+            'unsupported ops / negative concat dims is not decided. The calculator hooks choose by class only; the flatten / squeeze / cat axis tests are evaluated on concrete ranks and axes in both spellings (negative axes).',
     'note': 'The predicates of inspection.py are compared as data extracted from their syntax '
             'trees (targets and classes in the branches that return True).',
     'technique': 'table extraction + set relations, def-use analysis of buffer naming and of '
